@@ -178,7 +178,7 @@ PROPS["C12"] = dict(
 PROPS["C07"] = dict(
     module="UpfVerif.Props.C07",
     streams=[_ctl(9, "mix"), dict(name="malformed", args=["net=152"], shards=4, shards_thorough=12, seed_per_shard=True, timeout=600, timeout_thorough=3000),
-             dict(name="drv", shards=2, shards_thorough=4, seed_per_shard=True)],
+             dict(name="drv", args=["corpus=/verif/corpus/drvmal.lines"], shards=2, shards_thorough=4, seed_per_shard=True)],
     rule="ctl 'mix' (junk, truncated, unknown-type datagrams inside valid histories, SEIDs at all boundary classes) + malformed stream: structure-aware mutations of "
          "valid PFCP messages (header fields, IE lengths, nested IEs, flag octets, ids) after valid prefixes, liveness probe after each datagram; drv: rule IEs (well-formed, C-TAG/S-TAG outer header creation, damaged copies) through the real gtp5g driver",
     trusted_base=_CTL_TB, assumptions=_CTL_ASSUME,
@@ -225,7 +225,7 @@ _DRV_ASSUME = ["IPv4 variants of F-TEID / UE IP address / outer header creation;
                "little-endian host (go-nl uses native endianness)"]
 PROPS["C02"] = dict(
     module="UpfVerif.Props.C02",
-    streams=[dict(name="drv", shards=4, shards_thorough=16, seed_per_shard=True, timeout=600, timeout_thorough=3000),
+    streams=[dict(name="drv", args=["corpus=/verif/corpus/drvmal.lines"], shards=4, shards_thorough=16, seed_per_shard=True, timeout=600, timeout_thorough=3000),
              dict(name="buf", args=["net=176"], shards=2, shards_thorough=6, seed_per_shard=True, timeout=900, timeout_thorough=3000)],
     rule="S-drv: random Create/Update PDR/FAR grouped IEs built with go-pfcp: every field boundary+random, 0-3 QER ids / URR ids / SDF filters (grammar-generated flow descriptions, "
          "8% possibly invalid), PDI children and top-level children shuffled, all four source interfaces, OHC descriptions GTP-U/UDP/IPv4, SEIDs incl. 0, 1, 2^32, 2^63, 2^64-1; "
@@ -243,7 +243,7 @@ PROPS["C02"] = dict(
 )
 PROPS["C03"] = dict(
     module="UpfVerif.Props.C03",
-    streams=[dict(name="drv", shards=4, shards_thorough=16, seed_per_shard=True, timeout=600, timeout_thorough=3000)],
+    streams=[dict(name="drv", args=["corpus=/verif/corpus/drvmal.lines"], shards=4, shards_thorough=16, seed_per_shard=True, timeout=600, timeout_thorough=3000)],
     rule="S-drv: random Create/Update QER/URR/BAR grouped IEs: rates over the full 40-bit range (UL != DL), all gate/QFI/RQI/PPI octets, 2- and 3-octet trigger words, "
          "measurement periods incl. 0 and 2^32-1 s, 64-bit volumes with every flag subset, children shuffled; periodic registration read from the real perio.Server after each URR operation",
     trusted_base=_DRV_TB, assumptions=_DRV_ASSUME + ["Measurement Period as a kernel attribute is outside the statement (the periodic server, not the kernel, times the reports)"],
